@@ -674,3 +674,144 @@ def flatten_unit(prop):
     u = Unit(f'{prop}.flatten_resolve_paths', REPO_PY, 'Repository._flatten_resolve_paths', flatten_setup,
              flatten_post(prop), prop=prop)
     return u
+
+
+# ------------------------------------------------------------------ snapshot::_worker
+from specs.restore import Stream, slot_cm          # noqa: E402
+
+
+def worker_setup(b):
+    me = shared.repo_self(b, cache=False)
+    b.me = me
+    state = b.ref('state', STATE)
+    b.state = state
+    b.sym('queue_timeout', sym.REAL)
+    b.sym('upload_chunk_size', INT)
+    RATELIM = models.opaque_type('RateLimiter', attrs={
+        'wrap': MethodModel('wrap', lambda i, s, a, k: iter([(s, Stream('limited', inner=a[1]))]))})
+    b.sym('rate_limiter', Opt(RATELIM))
+
+    def fresh_bool(name):
+        return Model(name, lambda i, s, a, k: iter([(s, sym.fresh(BOOL, name))]))
+
+    def get_nowait(interp, st, args, kwargs):
+        e = st.copy()
+        yield e, Raised(Exc('Empty'))
+        c = sym.fresh(Ref(CHUNK), 'qchunk')
+        st.assume(z3.And(c.z >= 0, c.z < st.alloc_base))
+        st.emit('dequeue', chunk=c)
+        yield st, c
+
+    b.bind('chunk_queue', Obj('chunk_queue', empty=fresh_bool('q_empty'), get_nowait=Model('get_nowait', get_nowait)))
+    b.bind('chunk_producer', Obj('chunk_producer', done=fresh_bool('producer_done')))
+    b.bind('queue', Obj('queue', Full=shared.ExcClass('Full'), Empty=shared.ExcClass('Empty')))
+    b.bind('asyncio', models.ASYNCIO)
+
+    def exists(interp, st, args, kwargs):
+        fail = st.copy()
+        fail.emit('exists_failed', location=args[0])
+        yield fail, Raised(Exc('AnyError'))
+        r = sym.fresh(BOOL, 'exists')
+        st.emit('exists', location=args[0], result=r)
+        yield st, r
+
+    def chunk_done(interp, st, args, kwargs):
+        st.emit('chunk_done', chunk=args[0])
+        yield st, None
+
+    def bytesio(interp, st, args, kwargs):
+        s = Stream('bytesio')
+        st.ghost[f'content:{id(s)}'] = args[0] if args else b''
+        yield st, s
+
+    def tqdm_reader(interp, st, args, kwargs):
+        st.emit('tqdm_reader', total=kwargs.get('total'))
+        yield st, Stream('tqdm', inner=args[0])
+
+    def run_in_executor(interp, st, args, kwargs):
+        func, location, stream, length, chunk_size = args
+        content = st.ghost[f'content:{id(stream.root())}']
+        fail = st.copy()
+        fail.emit('upload_failed', location=location)
+        yield fail, Raised(Exc('AnyError'))
+        st.emit('upload_stream', func=func, location=location, content=content, length=length, chunk_size=chunk_size,
+                slots=st.ghost.get('slots_held', 0), wrapped_by=[stream.name, getattr(stream.inner, 'name', None)])
+        yield st, None
+
+    me._attrs.update({
+        '_exists': Model('_exists', exists),
+        '_acquire_slot': Model('_acquire_slot', lambda i, s, a, k: iter([(s, slot_cm())])),
+        '_maybe_run_in_executor': Model('_maybe_run_in_executor', run_in_executor),
+        'backend': Obj('backend', upload_stream=Obj('backend.upload_stream')),
+    })
+    b.bind('_chunk_done', Model('_chunk_done', chunk_done))
+    b.bind('io', Obj('io', BytesIO=Model('BytesIO', bytesio)))
+    b.bind('utils', Obj('utils', TQDMIOReader=Model('TQDMIOReader', tqdm_reader)))
+
+
+def worker_post(prop):
+    def post(res):
+        b = res.builder
+        n_up = n_done = 0
+        for p in res.body_paths('While#1'):
+            st = p.st
+            ev = [e for e in st.events if e.kind in ('dequeue', 'exists', 'exists_failed', 'upload_stream', 'upload_failed', 'chunk_done')]
+            kinds = [e.kind for e in ev]
+            sig = ','.join(kinds) + '->' + p.kind
+            deq = [e for e in ev if e.kind == 'dequeue']
+            if not deq:
+                res.oblige(p, f'{prop}.worker.idle_iteration_has_no_effects[{sig}]', z3.BoolVal(len(ev) == 0))
+                continue
+            c = deq[0].data['chunk'].z
+            h = st.heap
+            loc_, contents = h.read(CHUNK, 'location', c), h.read(CHUNK, 'contents', c)
+            ex = [e for e in ev if e.kind == 'exists']
+            ups = [e for e in ev if e.kind == 'upload_stream']
+            dones = [e for e in ev if e.kind == 'chunk_done']
+            for e in ex:
+                res.oblige(p.pc_at(e), f'{prop}.worker.exists_asked_for_chunk_location[{sig}]', sym.lift(e.data['location'], STR).z == loc_)
+            for e in ups:
+                n_up += 1
+                pc = p.pc_at(e)
+                # C07.worker.upload_iff_absent: payload is transferred only when the existence check said "absent"
+                res.oblige(pc, f'{prop}.worker.upload_only_if_absent[{sig}]',
+                           z3.And(z3.BoolVal(len(ex) == 1), z3.Not(ex[0].data['result'].z)) if ex else z3.BoolVal(False))
+                # C05.sink.chunk_upload / C16.payload: the stream wraps exactly chunk.contents, under chunk.location
+                res.oblige(pc, f'{prop}.worker.upload_is_chunk_contents_at_chunk_location[{sig}]', z3.And(
+                    sym.lift(e.data['location'], STR).z == loc_,
+                    sym.lift(e.data['content'], BYTES).z == contents,
+                    sym.lift(e.data['length'], INT).z == z3.Length(contents)))
+                res.oblige(pc, f'{prop}.worker.upload_holds_a_slot[{sig}]', z3.BoolVal(e.data['slots'] >= 1))
+                res.oblige(pc, f'{prop}.worker.upload_chunk_size_forwarded[{sig}]',
+                           sym.lift(e.data['chunk_size'], INT).z == st.lookup('upload_chunk_size').z)
+            if ex and not ups and p.kind in ('normal', 'continue'):
+                # no payload call when the object exists
+                res.oblige(p, f'{prop}.worker.no_upload_when_exists[{sig}]', ex[0].data['result'].z)
+            for e in dones:
+                n_done += 1
+                # C02.snapshot.refs_exist: a chunk is recorded only after the object is known to exist
+                before = ev[:ev.index(e)]
+                ok_exists = [x for x in before if x.kind == 'exists']
+                ok_upload = [x for x in before if x.kind == 'upload_stream']
+                goal = z3.BoolVal(False)
+                if ok_upload:
+                    goal = z3.BoolVal(True)
+                elif ok_exists:
+                    goal = ok_exists[0].data['result'].z
+                res.oblige(p.pc_at(e), f'{prop}.worker.recorded_only_after_object_exists[{sig}]',
+                           z3.And(goal, e.data['chunk'].z == c))
+            if p.kind in ('normal', 'continue'):
+                res.oblige(p, f'{prop}.worker.every_dequeued_chunk_is_recorded_once[{sig}]', z3.BoolVal(len(dones) == 1))
+            if p.kind == 'raise':
+                res.oblige(p, f'{prop}.worker.failure_records_nothing[{sig}]', z3.BoolVal(len(dones) == 0))
+            res.oblige(p, f'{prop}.worker.slots_balanced[{sig}]', z3.BoolVal(st.ghost.get('slots_held', 0) == 0))
+        res.oblige([], f'{prop}.worker.sites_checked', z3.BoolVal(n_up >= 1 and n_done >= 2))
+    return post
+
+
+def worker_unit(prop):
+    inv = lambda ctx: z3.BoolVal(True)
+    return Unit(f'{prop}.worker', REPO_PY, 'Repository.snapshot._worker', worker_setup, worker_post(prop),
+                loops={'While#1': LoopSpec(inv, modifies=[('heap_at', STATE, 'bytes_reused', ['state'])], name='While#1',
+                                           types={'chunk': Ref(CHUNK), 'exists': BOOL, 'length': INT, 'slot': INT})},
+                prop=prop)
